@@ -162,6 +162,19 @@ func (e *Engine) typesPkg(path string) *types.Package {
 	return nil
 }
 
+// typesInfo returns the go/types info of the package that declares fn.
+func (e *Engine) typesInfo(fn *ssa.Function) *types.Info {
+	if fn.Pkg == nil {
+		return nil
+	}
+	for _, p := range e.pkgs {
+		if p.Types == fn.Pkg.Pkg {
+			return p.TypesInfo
+		}
+	}
+	return nil
+}
+
 func (e *Engine) funcID(f *ssa.Function) int {
 	if id, ok := e.funcIDs[f]; ok {
 		return id
@@ -445,7 +458,30 @@ func (e *Engine) VerifyLemma(b *Block) *FuncResult {
 	for _, c := range b.ClausesOf("assumes") {
 		fc.sc.Assert(ev.evalBool(c.Expr))
 	}
-	goal := ev.evalBool(b.PureBody)
+	body := b.PureBody
+	// top-level universal quantifiers become fresh constants (keeps the goal as quantifier-free as possible)
+	for {
+		q, ok := body.(EQuant)
+		if !ok || !q.Forall {
+			break
+		}
+		binds := map[string]TV{}
+		for _, v := range q.Vars {
+			t := ev.resolveType(v.Type)
+			s, ok := leafSort(t)
+			if !ok {
+				panic(evalErr{"lemma variable " + v.Name + " must have a scalar type"})
+			}
+			c := fc.sc.Fresh("lv_"+v.Name, s)
+			if v.Type != "mathint" {
+				fc.sc.Assert(fc.typeFacts(st, scalar(c), t))
+			}
+			binds[v.Name] = TV{V: scalar(c), T: t}
+		}
+		ev = ev.with(binds)
+		body = q.Body
+	}
+	goal := ev.evalBool(body)
 	fc.oblige(st, "lemma", "", goal, token.Position{Filename: b.File, Line: b.Line}, "lemma "+b.Name)
 	return res
 }
